@@ -40,6 +40,7 @@ CONSTANTS Vals,          \* values a spectrum is built from (naturals)
           MaxAcc,        \* how many errors may be accumulated with TruncationError.__add__
           AlgVals,       \* integers offered to TruncationError.from_S / from_norm
           ThetaIds,      \* which catalogue matrices (see Theta(id)) are decomposed
+          ScaleOpts,     \* factors <<num, den>> by which a catalogue matrix is multiplied (norm of theta != 1)
           CutSemantics   \* "budget": discarded weight <= trunc_cut^2 is part of the constraint
                          \*           (the property statement);
                          \* "directive": only "discard everything that fits into trunc_cut^2"
@@ -285,22 +286,26 @@ Accumulate ==
 
 \* U, S, VH, err, renormalization = svd_theta(theta, trunc_par) and the relatives: the spec states
 \* the exact data of the relation the outputs have to satisfy (see DecompResult)
-DecompResult(id, o) ==
+\* theta = (sc[1]/sc[2]) * Theta(id).  svd_theta / eigh_rho normalise the spectrum before truncate(), so the
+\* options act on the *normalised* singular values: which values are kept and the reported eps (= discarded
+\* weight / total weight) do not depend on the factor, only the renormalization = |kept singular values| does.
+DecompResult(id, o, sc) ==
     LET t == Theta(id)
         sg == FlatSigma(t)
         r == TruncResult(sg, o)
     IN [sigma |-> sg, charges |-> SigmaCharges(t), blocks |-> ThetaBlocks(t),
         k |-> r.k, kept |-> r.kept, nn |-> r.nn, dd |-> r.dd, unit |-> r.unit, onthr |-> r.onthr,
         kdirective |-> r.kdirective, dropped |-> r.dropped,
+        renorm2 |-> <<r.nn * sc[1] * sc[1], sc[2] * sc[2]>>,         \* renormalization^2, exact
         \* what truncate() would keep if the thresholds were applied to the *unnormalised* singular values
         kabs |-> TruncResult(sg, [o EXCEPT !.mode = "abs"]).k,
         kabsdir |-> TruncResult(sg, [o EXCEPT !.mode = "abs"]).kdirective]
 
 Decompose ==
     /\ phase = "build" /\ S = <<>> /\ nacc = 0
-    /\ \E id \in ThetaIds, o \in Options :
+    /\ \E id \in ThetaIds, o \in Options, sc \in ScaleOpts :
           /\ o.mode = "rel"
-          /\ last' = [op |-> "decompose", theta |-> id, opt |-> o, res |-> DecompResult(id, o)]
+          /\ last' = [op |-> "decompose", theta |-> id, scale |-> sc, opt |-> o, res |-> DecompResult(id, o, sc)]
     /\ phase' = "done"
     /\ UNCHANGED <<S, acc, nacc>>
     /\ Record
@@ -384,4 +389,14 @@ ThetaCertified == last.op = "decompose" =>
     /\ SumSq(last.res.sigma) =
          SumSeq([j \in 1..Len(last.res.blocks) |->
                  SumSeq([i \in 1..Len(last.res.blocks[j].m) |-> SumSq(last.res.blocks[j].m[i])])])  \* = |theta|_F^2
+
+\* truncation of a normalised spectrum does not see the norm of theta: multiplying all singular values by
+\* the numerator / denominator of the factor changes neither the keep-count nor the dropped constraints, and
+\* the discarded weight scales with the square
+ScaleInvariant == last.op = "decompose" =>
+    \A m \in {last.scale[1], last.scale[2]} :
+        LET r2 == TruncResult([i \in 1..Len(last.res.sigma) |-> m * last.res.sigma[i]], last.opt)
+        IN /\ r2.k = last.res.k /\ r2.dropped = last.res.dropped /\ r2.onthr = last.res.onthr
+           /\ r2.dd = m * m * last.res.dd /\ r2.nn = m * m * last.res.nn
+           /\ r2.eps[1] * last.res.unit = last.res.dd * r2.eps[2]          \* eps = dd / N unchanged
 =============================================================================
